@@ -96,3 +96,21 @@ Lemma pickle_current_ok :
   let w := run current d9_history empty_world in
   nth_error (objs w) 1 = Some (OStruct [2; 3] 1) /\ lat_of w 2 = Some 1 /\ lat_of w 3 = Some 1.
 Proof. vm_compute. auto. Qed.
+
+(* ---------------------------------------------------------------- the hypotheses of the copy / selection theorems are satisfiable *)
+
+Definition three_atoms : world := run current [NewStruct; AddNewAtom 0 1%Z; AddNewAtom 0 2%Z; AddNewAtom 0 3%Z] empty_world.
+
+Lemma three_atoms_Inv : Inv three_atoms.
+Proof. apply run_Inv. apply empty_Inv. Qed.
+
+Example copy_hypotheses_example :
+  Inv three_atoms /\ snd (step current (Mul 0 2%Z) three_atoms) = Done (RObj 1) /\
+  nth_error (objs (fst (step current (Mul 0 2%Z) three_atoms))) 1 = Some (OStruct [3; 4; 5; 6; 7; 8] 3).
+Proof. split; [apply three_atoms_Inv|]. vm_compute. auto. Qed.
+
+Example selection_hypotheses_example :
+  get_struct three_atoms 0 = Some ([0; 1; 2], 0) /\
+  slice_indices 3 (mkSlice None None (Some (-2)%Z)) = Some [2; 0] /\
+  nth_error (objs (fst (step current (GetSlice 0 (mkSlice None None (Some (-2)%Z))) three_atoms))) 1 = Some (OStruct [2; 0] 0).
+Proof. vm_compute. auto. Qed.
